@@ -21,6 +21,7 @@ def trace_plan(ctx):
                 mt = 0.0 if ctx.rng.random() < 0.12 else INF
                 jobs.append((ctx.rng.randrange(10**9), ctx.rng.randint(3, 5), n_it, thin, burnin, conc, outl, prop, ctx.rng.randint(3, 5), mt,
                              ctx.rng.choice([0.0, 0.0, 0.3])))
+    jobs = jobs + [(ctx.rng.randrange(10**9),) + j[1:] for j in jobs]
     if not ctx.quick:
         jobs = jobs + [(ctx.rng.randrange(10**9),) + j[1:] for j in jobs]
     return jobs
@@ -40,13 +41,15 @@ def run(ctx):
     )
     ctx.exhaustive = False
     if ctx.quick:
-        rjobs = [(ctx.rng.randrange(10**9), ctx.rng.randint(5, 8), ctx.rng.choice([12, 25, 40]), k < 10) for k in range(50)]
+        rjobs = [(ctx.rng.randrange(10**9), ctx.rng.randint(5, 8), ctx.rng.choice([12, 25, 40]), k < 16) for k in range(140)]
     else:
         rjobs = [(ctx.rng.randrange(10**9), ctx.rng.randint(5, 10), ctx.rng.choice([25, 40, 80, 150]), k < 40) for k in range(260)]
     tjobs = trace_plan(ctx)
     with ProcessPoolExecutor(max_workers=h.WORKERS) as ex:
         rres = list(ex.map(edits.roundtrip_job, rjobs, chunksize=2))
         tres = list(ex.map(edits.trace_job, tjobs, chunksize=2))
+    for r in tres[:2]:
+        ctx.samples.append({"chain_run": r["args"], "iters": r["iters"], "alphas_vary": r["alphas_vary"], "crash": r["crash"]})
     # (a)
     n_rt = n_holes = n_oo = n_suffix = 0
     for r in rres:
@@ -103,6 +106,19 @@ def run(ctx):
                 broken.append((k, detail[-500:]))
             elif b:
                 bad.append((k, b))
+    canary_ok = False
+    if groups:
+        import re
+
+        defs, items = groups[0]
+        m = re.search(r"\(WNode (\d+)\)|WNone|WOut", items[0])
+        # perturb the dictionary's `last` (first occurrence is inside mkD ...): the restored `last` must then differ
+        if m:
+            repl = "WOut" if m.group(0) != "WOut" else "WNone"
+            pert = items[0][: m.start()] + repl + items[0][m.end():]
+            ok, b, _ = coq.coq_eval_bool_cases(ctx, "dict_canary", edits.DICT_HEADER + defs, [pert], shard=1, workers=1)
+            canary_ok = ok and b == [0]
+    ctx.obligation("corr_dict_canary_perturbed_dictionary_rejected", canary_ok)
     if broken:
         ctx.broken_tie("C15 dictionary correspondence file did not evaluate", broken[:2])
     else:
